@@ -465,3 +465,10 @@ func (s *S) SpawnFromTimer(name string, f func()) {
 		f()
 	}()
 }
+
+// Tracef adds a line to the execution trace (when tracing is on).
+func (s *S) Tracef(format string, a ...any) {
+	if s != nil {
+		s.tracef(format, a...)
+	}
+}
